@@ -5,8 +5,10 @@ on rendered children.
 import CamVerif.Proofs.C17Cursor
 import CamVerif.Proofs.C17Literals
 set_option linter.unusedSimpArgs false
+set_option linter.unusedSectionVars false
 namespace CamVerif.XmlParse
 variable {F : Type}
+variable [TextFrag]
 
 /-! ### attributes -/
 
@@ -276,17 +278,7 @@ theorem pImmOrPIntegerId_body (tag : Str) (b : Body) (x : IR IntLit)
 theorem textView_indexedBody {L : Type} (text : L → Str) (x : IntLit × IR L) :
     textView (indexedBody text x).2.2 = .ok (irText text x.2) := by
   obtain ⟨i, v⟩ := x
-  cases v with
-  | imm l =>
-    simp only [indexedBody, irText]
-    split
-    · next h => rw [h]; rfl
-    · simp [textView, concatText]
-  | ref n =>
-    simp only [indexedBody, irText]
-    split
-    · next h => rw [h]; rfl
-    · simp [textView, concatText]
+  cases v <;> simp [indexedBody, irText, textView, TextFrag.view]
 
 theorem index_indexedBody {L : Type} (text : L → Str) (x : IntLit × IR L) :
     attrOf (indexedBody text x).2.1 cs!"Index" = some x.1.text := by
